@@ -122,9 +122,18 @@ def dat_families() -> dict:
                 "nodac": bool(dat.get("rot_not_part_of_dac", False)), "inv": bool(dat.get("rot_could_be_invalid", False)),
                 "pss": bool(sig.get("pss_padding", False)),
             }
-        fams[name] = {"latest": d["latest"], "revs": revs}
+        fams[name] = {"latest": d["latest"], "revs": revs, "pred": ((d.get("info") or {}).get("spsdk_predecessor_name") or None)}
     _STATE["fams"] = fams
     return fams
+
+
+def _old_name(fam: str):
+    """The name the family had in earlier releases (still accepted everywhere), if it stands for this family alone."""
+    fams = dat_families()
+    p = fams[fam].get("pred")
+    if not p or p in fams:
+        return None
+    return p if sum(1 for f in fams.values() if f.get("pred") == p) == 1 else None
 
 
 def _info(fam: str, rev: str) -> dict:
@@ -227,7 +236,7 @@ def _dc_strategy(tier: str):
             "uuid": draw(_UUID), "socu": draw(_U32), "vu": draw(_U32), "cb": draw(_BEACON),
             "rot_form": draw(st.lists(st.sampled_from(["pub.pem", "pub.pem", "pub.der", "priv.pem"]), min_size=n, max_size=n)),
             "dck_form": draw(st.sampled_from(["pub.pem", "pub.der", "priv.pem"])),
-            "signer": draw(st.sampled_from(["rotk", "rotk", "sp"])),
+            "signer": draw(st.sampled_from(["rotk", "rotk", "sp"])), "sp_der": draw(st.booleans()), "old_name": draw(st.sampled_from([False, False, True])),
             "explicit_version": draw(st.booleans()),
             "by_socc": draw(st.sampled_from([False, False, False, True])),
             "flag_ca": draw(st.booleans()),
@@ -288,6 +297,10 @@ def run_dc(case, o: Oracle) -> None:
     major, minor = L.protocol_version(pubs[rot_id])
     uuid, socu, vu, cb = bytes(case["uuid"]), int(case["socu"]), int(case["vu"]), int(case["cb"])
     by_socc = bool(case["by_socc"]) and not info["ele"]
+    # the family may be named by its earlier name (rt118x, mx93, ...)
+    fam_given = fam
+    if case.get("old_name") and _old_name(fam):
+        fam_given = _old_name(fam)
     call_rev = rev
     if by_socc and rev != "latest":
         # a SoC class that only an older revision has (MCXN54x/94x a0: 6) is reachable through the `socc:` form alone; the
@@ -311,6 +324,8 @@ def run_dc(case, o: Oracle) -> None:
         o.label("beacon_nonzero")
     if cb > 0xFFFF:
         o.label("beacon_gt16bit")
+    if fam_given != fam:
+        o.label("family_by_earlier_name")
     if by_socc:
         o.label("by_socc")
         if call_rev != rev:
@@ -343,11 +358,16 @@ def run_dc(case, o: Oracle) -> None:
     if by_socc:
         cfg["socc"] = hex(info["socc"]) if txt else info["socc"]
     else:
-        cfg["family"] = fam
+        cfg["family"] = fam_given
         if rev != "latest":
             cfg["revision"] = rev
     if case["signer"] == "sp":
         cfg["sign_provider"] = "type=file;file_path=%s" % rotk_file
+        if case.get("sp_der") and not kt.startswith("rsa"):
+            # a provider that hands ECDSA signatures over DER-encoded (HSM plug-ins do; the stock provider on request): the credential
+            # carries r||s all the same
+            cfg["sign_provider"] += ";der_format=true"
+            o.label("sign_provider_returns_der")
     else:
         cfg["rotk"] = os.path.basename(rotk_file)
     if kind == "ele" and flag_ca:
@@ -357,7 +377,7 @@ def run_dc(case, o: Oracle) -> None:
     # ---- the nxpdebugmbox `dat dc export` call sequence
     dc = data = None
     with o.spsdk("create", "dc"):
-        family = fam if not by_socc else DebugCredentialCertificate.get_family_ambassador(info["socc"])
+        family = fam_given if not by_socc else DebugCredentialCertificate.get_family_ambassador(info["socc"])
         klass = DebugCredentialCertificate._get_class_from_cfg(config=cfg, family=family, search_paths=[wd], revision=call_rev)
         check_config(cfg, klass.get_validation_schemas(family, call_rev), search_paths=[wd])
         version = ProtocolVersion("%d.%d" % (major, minor)) if case["explicit_version"] else None
@@ -465,18 +485,21 @@ def run_dc(case, o: Oracle) -> None:
     with o.spsdk("dar", "build:" + path):
         if path == "create":
             # create() takes a key file or, for anything that is not an existing file, a signature provider configuration
-            dar = DebugAuthenticateResponse.create(family=fam if case["dar_family_given"] else None, version=None, dc=dc, auth_beacon=ab,
+            dar = DebugAuthenticateResponse.create(family=fam_given if case["dar_family_given"] else None, version=None, dc=dc, auth_beacon=ab,
                                                    dac=dac, dck=dck_priv if dar_signer == "key" else "type=file;file_path=%s" % dck_priv)
         else:
             cert_file = _write(os.path.join(wd, "dc_%s.bin" % hashlib.sha256(data).hexdigest()[:24]), data)
-            dcfg = {"family": fam, "certificate": os.path.basename(cert_file), "beacon": ab}
+            dcfg = {"family": fam_given, "certificate": os.path.basename(cert_file), "beacon": ab}
             if dar_signer == "key":
                 dcfg["dck_private_key"] = os.path.basename(dck_priv)
             else:
                 dcfg["sign_provider"] = "type=file;file_path=%s" % dck_priv
+                if case.get("sp_der") and dck_pub[0] != "rsa":
+                    dcfg["sign_provider"] += ";der_format=true"
+                    o.label("dar_sign_provider_returns_der")
             if rev != "latest":
                 dcfg["revision"] = rev
-            check_config(dcfg, DebugAuthenticateResponse.get_validation_schemas(fam, rev), search_paths=[wd])
+            check_config(dcfg, DebugAuthenticateResponse.get_validation_schemas(fam_given, rev), search_paths=[wd])
             dar = DebugAuthenticateResponse.load_from_config(dcfg, dac, search_paths=[wd])
         dar_bytes = dar.export()
     o.label("dar:" + path)
